@@ -213,6 +213,15 @@ def h_soft(env, kind="sphere", outwards=True, sigma=1, face=True):
     env.check("soft_mask_in_0_1", env.and_(env.ge(v, 0.0), env.le(v, 1.0)))
     if env.mode == "conc" and outwards:
         env.check("core_at_1_within_1e-3", env.implies(core_vox, float(v) >= 1 - 1e-3))
+        # the concrete run has the whole array: EVERY voxel of the requested hard mask keeps the value 1 within 1e-3
+        M = np.asarray(mask, dtype=float)
+        g = np.meshgrid(*[np.arange(int(k)) for k in n], indexing="ij")
+        cc, rr = [float(q) for q in c], float(r)
+        if kind == "sphere":
+            core = (g[0] - cc[0]) ** 2 + (g[1] - cc[1]) ** 2 + (g[2] - cc[2]) ** 2 <= rr * rr
+        else:
+            core = ((g[0] - cc[0]) ** 2 + (g[1] - cc[1]) ** 2 <= rr * rr) & (np.abs(g[2] - cc[2]) * 2 <= float(h) - 1)
+        env.check("whole_core_at_1_within_1e-3", bool(core.sum() == 0 or M[core].min() >= 1 - 1e-3))
 
 
 def _masks(env, n, k, soft):
@@ -268,7 +277,8 @@ def jobs(tier, seed):
         j.append(("h_algebra", {"op": op, "k": 2}))
         j.append(("h_algebra", {"op": op, "k": 3 if op != "difference" else 2, "soft": True}))
     j += [("h_soft", {"kind": "sphere", "sigma": 1, "face": True}), ("h_soft", {"kind": "cylinder", "sigma": 2, "face": True}),
-          ("h_soft", {"kind": "sphere", "sigma": 1, "outwards": False, "face": False})]
+          ("h_soft", {"kind": "sphere", "sigma": 1, "outwards": False, "face": False}),
+          ("h_soft", {"kind": "sphere", "sigma": 2, "face": False}), ("h_soft", {"kind": "sphere", "sigma": 3, "face": True}), ("h_soft", {"kind": "cylinder", "sigma": 3, "face": False})]
     j += [("h_ellipsoid", {"shape": [6, 8, 10]}), ("h_ellipsoid", {"shape": [8, 8, 8], "explicit_centre": False}), ("h_ellipsoid", {"shape": [10, 6, 12]})]
     j.append(("h_eshell", {"shape": [8, 10, 12]}))
     j.append(("h_algebra", {"op": "union", "k": 1}))
